@@ -47,3 +47,32 @@ pub fn first_line(s: &str) -> String { s.lines().next().unwrap_or("").chars().ta
 
 /// (finding id, (location substring, message substring)) — each is a C05 finding seen from another property's check.
 pub const KNOWN_PANIC_SITES: &[(&str, (&str, &str))] = &[];
+
+/// A split whose factor or its reciprocal has no finite decimal expansion (3-for-1, 3-for-2, 1-for-3, 7-for-3 ...).
+pub fn risky_split(r: &HRow) -> bool {
+    if r.act != crate::model::Act::Split { return false; }
+    let m = r.to_mrow();
+    m.split.0.div(&m.split.1).to_decimal_string(28).is_none() || m.split.1.div(&m.split.0).to_decimal_string(28).is_none()
+}
+
+/// Root-cause classifiers R1b / R5 for a ledger mismatch located at a loss sale: in exact arithmetic
+/// the affiliates hold nothing at the end of the sale's window, or a buying affiliate holds nothing,
+/// and a split with a non-terminating factor precedes the end of the window. The tool then sees
+/// ~1e-27 shares instead of zero (R1b: residue created by the look-ahead's own restatement across a
+/// split inside the window; R5: residue already in the rounded ledger balance), which flips
+/// "superficial or not" or sends the whole adjustment to an affiliate that holds nothing.
+pub fn zero_residue_class(rows: &[HRow], model: &crate::model::MResult, at: Option<usize>) -> Option<&'static str> {
+    let i = at?;
+    let m = model.rows.get(i)?;
+    let w = m.win.as_ref()?;
+    if !(w.held.is_zero() || w.buyers_eop.iter().any(|(_, e)| e.is_zero())) { return None; }
+    let end = m.sd + time::Duration::days(30);
+    let in_window_after = rows.iter().any(|r| risky_split(r) && r.sd >= m.sd && r.sd <= end);
+    let before = rows.iter().any(|r| risky_split(r) && r.sd <= m.sd);
+    if in_window_after { Some("R1b") } else if before { Some("R5") } else { None }
+}
+
+pub fn ledger_mismatch_verdict(sec: &str, e: &str, at: Option<usize>, rows: &[HRow], model: &crate::model::MResult, detail: &str) -> Verdict {
+    if let Some(id) = zero_residue_class(rows, model, at) { return known_or_fail(id, format!("{sec}: {e}\n{detail}")); }
+    Verdict::Fail(format!("{sec}: {e}\n{detail}"))
+}
